@@ -287,7 +287,9 @@ def fop(name):
 
 
 def fsqrt(ty, a):
-    return [P('sqrt', T.raw_op('sqrt', ty.bits, a))]
+    # the scalar overload calls the C library's sqrt/sqrtf (correctly rounded by IEEE-754 / C Annex F): trusted by name
+    lib = 'call:sqrtf' if ty.bits == 32 else 'call:sqrt'
+    return [P('sqrt', T.raw_op('sqrt', ty.bits, a)), P('libm sqrt', T.raw_op(lib, ty.bits, a))]
 
 
 def fneg(ty, a):
@@ -499,7 +501,7 @@ def round_spec(ty, a):
     half = _fk(ty, 0x3f000000, 0x3fe0000000000000)
     one = fone(ty)
     mone = T.fneg(one)
-    out = []
+    out = [P('llvm.round (halves away from zero)', T.raw_op('round', ty.bits, a))]
     seen = set()
     for (lab, k_, c) in rounding('ceil')(ty, v):
         for cm_half in (_fadd(ty, c, mhalf), _fsub(ty, c, half)):
@@ -534,14 +536,42 @@ def is_flint_spec(ty, a):
 
 
 def is_even_spec(ty, a):
+    """is_even(x) = is_flint(x) && is_flint(x * 0.5)   (class I): x * 0.5 is exact unless x is an odd multiple of the
+    smallest denormal, which is_flint(x) excludes; so the result is 'x is an integer and x/2 is an integer'."""
     half = _fk(ty, 0x3f000000, 0x3fe0000000000000)
-    return _is_flint_forms(ty, _fmul(ty, a, half), 'is_even(x) = is_flint(x * 0.5)')
+    out = []
+    for (l1, k1, f1) in _is_flint_forms(ty, a, 'is_flint(x)'):
+        for (l2, k2, f2) in _is_flint_forms(ty, _fmul(ty, a, half), 'is_flint(x * 0.5)'):
+            out.append(I('is_flint(x) && is_flint(x * 0.5)', T.and_(f1, f2)))
+    return out
 
 
 def is_odd_spec(ty, a):
+    """is_odd(x) = is_flint(x) && !is_flint(x * 0.5)   (class I, same exactness argument)"""
     half = _fk(ty, 0x3f000000, 0x3fe0000000000000)
-    one = fone(ty)
     out = []
-    for xm1 in (_fadd(ty, a, T.fneg(one)), _fsub(ty, a, one)):
-        out += _is_flint_forms(ty, _fmul(ty, xm1, half), 'is_odd(x) = is_even(x - 1)')
+    for (l1, k1, f1) in _is_flint_forms(ty, a, 'is_flint(x)'):
+        for (l2, k2, f2) in _is_flint_forms(ty, _fmul(ty, a, half), 'is_flint(x * 0.5)'):
+            out.append(I('is_flint(x) && !is_flint(x * 0.5)', T.and_(f1, T.not_(f2))))
     return out
+
+
+# ---------------------------------------------------------------- clip (C17)
+def _lt(ty, x, y):
+    if ty.is_fp:
+        return T.fcmp('olt', x, y)
+    return T.icmp('slt' if ty.signed else 'ult', x, y)
+
+
+def clip_scalar(ty, x, lo, hi):
+    """scalar clip: (x < lo) ? lo : (hi < x) ? hi : x.  For lo <= hi (the documented precondition) and non-NaN operands
+    this equals min(hi, max(x, lo)) -- case analysis: x < lo gives lo (= min(hi, lo)); hi < x gives hi; otherwise x."""
+    return [I('(x < lo) ? lo : (hi < x) ? hi : x', T.sel(_lt(ty, x, lo), lo, T.sel(_lt(ty, hi, x), hi, x)))]
+
+
+def clip_batch(ty, x, lo, hi):
+    outs = []
+    for (l1, k1, mx) in (minmax('max')(ty, x, lo) if ty.is_int else fminmax('max')(ty, x, lo)):
+        for (l2, k2, mn) in (minmax('min')(ty, hi, mx) if ty.is_int else fminmax('min')(ty, hi, mx)):
+            outs.append(I('min(hi, max(x, lo))', mn))
+    return outs
